@@ -182,7 +182,7 @@ def empty_solution(schematic: elm.Schematic) -> SchematicDiagramSolution:
 def single_frequency_time_domain_steady_state_solution(schematic: elm.Schematic, w: float = 0, sin: bool = False, deg: bool = False, hertz: bool = False) -> SchematicDiagramSolution:
     digagram_parser = SchematicDiagramParser(schematic)
     solution = TimeDomainSteadyStateDiagramSolution(
-        solution=ComplexSolution(circuit=circuit_translator(schematic), w=w),
+        solution=ComplexSolution(circuit=circuit_translator(schematic), w=w, peak_values=True), # the amplitude of a time function is the peak value
         deg=deg,
         hertz=hertz,
         sin=sin
